@@ -506,6 +506,14 @@ class WebSocketApp:
             ],
             reconnecting: bool = False,
         ) -> bool:
+            if not self.keep_running and not isinstance(
+                e, (KeyboardInterrupt, SystemExit)
+            ):
+                # close() was called (possibly from another thread): whatever the
+                # socket raised while it was being closed is not an error of the run
+                teardown()
+                return
+
             self.has_errored = True
             self._stop_ping_thread()
             if not reconnecting:
